@@ -31,7 +31,11 @@ HIST = {
             # same rational grids and sample sizes, ascertained and plain calls mixed (tables shared between calls)
             'entries-direct-het-yy-BC-L4x4-n1x2',
             ['entries-direct-het-xx-BC-L4x4-n1x2', 'entries-direct-BC-L4x4-n1x2', 'entries-direct-het-yy-BC-L4x4-n1x2'],
-            ['entries-direct-het-xx-S-L4-n2', 'entries-direct-S-L4-n2']],
+            ['entries-direct-het-xx-S-L4-n2', 'entries-direct-S-L4-n2'],
+            # inbreeding sampling with different ploidies and the same (allele count, individuals) in one process, both
+            # orders (partition tables memoised per ploidy); stretch units, so the chains are stretch too
+            ['stretch-betabinom-convolution-ploidy3-nind2', 'stretch-betabinom-convolution-ploidy2-nind2'],
+            ['stretch-betabinom-convolution-ploidy2-nind2', 'stretch-betabinom-convolution-ploidy3-nind2']],
     'C07': ['k1-lin-spectrum-perm0', 'k2-lin-list-perm01', 'k2-lin-attr-perm01', 'labels-log-spectrum-k1-3'],
     'C08': ['values1d-n03', 'twostage1d-n03', 'values2d-1x3-all', 'values3d-1x2x1-all', 'folded-3-all',
             'weights-n01-10', ['values2d-1x2-all', 'folded-2-all', 'values1d-n02']],
